@@ -199,12 +199,39 @@ type adminProbe struct {
 	Body   string `json:"body"`
 }
 
+// adaptiveProbe: a synthetic backlog (queued + leased messages, the oldest AgeSec old) is put behind the
+// admission controller and one ingress request to Route is decided.
+type adaptiveProbe struct {
+	Queued int    `json:"queued"`
+	Leased int    `json:"leased"`
+	AgeSec int    `json:"age_sec"`
+	Route  string `json:"route"`
+}
+
+func backlogStore(queued, leased, ageSec int) queue.Store {
+	clk := &vclock{t: time.Now().Add(-time.Duration(ageSec) * time.Second)}
+	st := queue.NewMemoryStore(queue.WithNowFunc(clk.Now))
+	for i := 0; i < queued+leased; i++ {
+		_ = st.Enqueue(queue.Envelope{ID: fmt.Sprintf("bk-%d", i), Route: "/backlog", Target: "pull"})
+	}
+	for left := leased; left > 0; left -= 100 {
+		n := left
+		if n > 100 {
+			n = 100
+		}
+		_, _ = st.Dequeue(queue.DequeueRequest{Route: "/backlog", Target: "pull", Batch: n, LeaseTTL: time.Hour})
+	}
+	clk.Advance(time.Duration(ageSec) * time.Second)
+	return st
+}
+
 type probeSet struct {
-	Ingress []ingProbe   `json:"ingress"`
-	Pull    []pullProbe  `json:"pull"`
-	Admin   []adminProbe `json:"admin"`
-	Worker  []pullProbe  `json:"worker"`
-	Seed    []string     `json:"seed_routes"` // routes that get one queued message before pull probes
+	Adaptive []adaptiveProbe `json:"adaptive"`
+	Ingress  []ingProbe      `json:"ingress"`
+	Pull     []pullProbe     `json:"pull"`
+	Admin    []adminProbe    `json:"admin"`
+	Worker   []pullProbe     `json:"worker"`
+	Seed     []string        `json:"seed_routes"` // routes that get one queued message before pull probes
 }
 
 // fingerprint runs every probe against handlers wired to the state (fresh scratch stores) and
@@ -267,6 +294,23 @@ func fingerprint(v *app.VerifState, running config.Compiled, ps probeSet, clk *v
 			}
 		}
 		out = append(out, fmt.Sprintf("admin[%d] %s %s token=%q -> %d %s enq=%v", i, p.Method, p.Path, p.Token, w.Code, strings.TrimSpace(body), storeContents(st)))
+	}
+	for i, p := range ps.Adaptive {
+		v.SetQueueStore(backlogStore(p.Queued, p.Leased, p.AgeSec))
+		dec := v.AdmissionDecision(p.Route)
+		v.SetQueueStore(backlogStore(p.Queued, p.Leased, p.AgeSec))
+		st := queue.NewMemoryStore()
+		w := httptest.NewRecorder()
+		v.Ingress(st, running, nopHook{}).ServeHTTP(w, buildIngressRequest(ingProbe{Method: "POST", Path: p.Route, BodyLen: 3}))
+		out = append(out, fmt.Sprintf("admission[%d] backlog queued=%d leased=%d age=%ds POST %s -> %s http=%d enq=%v",
+			i, p.Queued, p.Leased, p.AgeSec, p.Route, dec, w.Code, storeContents(st)))
+		clk.Advance(time.Hour)
+	}
+	if len(ps.Adaptive) > 0 {
+		v.SetQueueStore(nil)
+		for _, l := range v.EffectiveAdmissionConfig() {
+			out = append(out, "effective "+l)
+		}
 	}
 	for i, p := range ps.Worker {
 		ctx := context.Background()
@@ -510,6 +554,8 @@ type visScenario struct {
 	New      string       `json:"new"`
 	Requests []visRequest `json:"requests"`
 	Seed     []string     `json:"seed_routes"`
+	Backlog  []int        `json:"backlog"` // [queued, leased, age_sec]: synthetic backlog behind the admission controller
+	LockOnly bool         `json:"lock_only"` // only the runs that hold the reload at a sync point (no reload between two accessors)
 }
 
 type visCall struct {
@@ -628,6 +674,12 @@ func (e *visEnv) execute(rq visRequest, mode string, at int) visRun {
 	for p, k := range refNew.AuthObjects() {
 		gen[p] = k[:strings.Index(k, ":")] + "@new"
 	}
+	if len(e.sc.Backlog) == 3 {
+		b := e.sc.Backlog
+		st.SetQueueStore(backlogStore(b[0], b[1], b[2]))
+		refOld.SetQueueStore(backlogStore(b[0], b[1], b[2]))
+		refNew.SetQueueStore(backlogStore(b[0], b[1], b[2]))
+	}
 	if rq.Kind == "ingress" && rq.Prime > 0 {
 		ing := st.Ingress(store, e.oldC, nopHook{})
 		ingRef := refOld.Ingress(queue.NewMemoryStore(), e.oldC, nopHook{})
@@ -689,6 +741,32 @@ func (e *visEnv) execute(rq visRequest, mode string, at int) visRun {
 			run.ReloadOK = ok
 		}
 		note("new")
+	case mode == "prelock":
+		// the reload is held inside loadAuthAnd just BEFORE it takes the state lock (all secrets loaded,
+		// nothing published yet): the whole request runs; it must be served entirely under the old configuration
+		entered = make(chan struct{}, 1)
+		release = make(chan struct{})
+		done = make(chan bool, 1)
+		app.VerifSetSyncHook(func(point string) {
+			if point == "before-lock" {
+				entered <- struct{}{}
+				<-release
+			}
+		})
+		go func() {
+			_, ok := app.VerifReload(e.newPath, e.oldC, st)
+			done <- ok
+		}()
+		select {
+		case <-entered:
+			run.Via = "sync-point:before-lock"
+		case ok := <-done:
+			app.VerifSetSyncHook(nil)
+			done = nil
+			run.Via = "not-reached"
+			run.ReloadOK = ok
+			return run
+		}
 	case mode == "inlock":
 		// the reload is held INSIDE its critical section, between the assignment of the authenticator
 		// fields and alsoLocked() (the route table half).  The request is started meanwhile; it must not
@@ -755,7 +833,7 @@ func (e *visEnv) execute(rq visRequest, mode string, at int) visRun {
 		doRequest()
 	}
 
-	if mode == "window" && done != nil {
+	if (mode == "window" || mode == "prelock") && done != nil {
 		close(release)
 		run.ReloadOK = <-done
 		app.VerifSetSyncHook(nil)
@@ -796,6 +874,7 @@ func reloadVisibility(inb []byte) (any, error) {
 		Scenarios  []visScenario `json:"scenarios"`
 		SyncPoints int           `json:"sync_points"` // number of "after-<call>" sync points in the overlay copy of reloadConfig
 		InLock     bool          `json:"inlock"`      // the overlay copy has the point inside loadAuthAnd's critical section
+		PreLock    bool          `json:"prelock"`     // ... and the point just before loadAuthAnd takes the lock
 	}
 	if err := json.Unmarshal(inb, &in); err != nil {
 		return nil, err
@@ -842,7 +921,7 @@ func reloadVisibility(inb []byte) (any, error) {
 			if len(rr.New.Calls) > maxPos {
 				maxPos = len(rr.New.Calls)
 			}
-			for k := 1; k <= maxPos+1; k++ {
+			for k := 1; k <= maxPos+1 && !sc.LockOnly; k++ {
 				m := env.execute(rq, fmt.Sprintf("full@%d", k), k)
 				if !m.Fired {
 					break
@@ -859,6 +938,11 @@ func reloadVisibility(inb []byte) (any, error) {
 				}
 			}
 			_ = entered
+			if in.PreLock {
+				if prun := env.execute(rq, "prelock", 0); strings.HasPrefix(prun.Via, "sync-point") {
+					rr.Mixed = append(rr.Mixed, prun)
+				}
+			}
 			if in.InLock {
 				if irun := env.execute(rq, "inlock", 0); strings.HasPrefix(irun.Via, "sync-point") {
 					inlockSeen = true
